@@ -3806,6 +3806,11 @@ class ScoreVariant(object):
 
         for start, end, offset in self.segments:
             delta = offset - start.t
+            # the quarter duration in force at the start of the segment (it may
+            # differ from the one at the end of the previously copied segment)
+            part.set_quarter_duration(
+                offset, int(self.part.quarter_duration_map(start.t))
+            )
             qd = self.part.quarter_durations(start.t, end.t)
             for t, quarter in qd:
                 part.set_quarter_duration(t + delta, quarter)
